@@ -49,28 +49,33 @@ def tecmpLin (b p : Bytes) : List Packet :=
       let o := linSetData o (slice p 2 n)
       [tecmpPacket b (beAt b 12 4) ⟨tyLin, o⟩]
 
+/-- capture-module status: the serial number and version fields (bytes 8..17) must be there, and so must the vendor data
+    whose length the generic part declares (u16 @4; it starts behind the 12 generic bytes) -/
 def tecmpCm (b p : Bytes) : List Packet :=
   if p.length < 18 then []
+  else if p.length - 12 < beAt p 4 2 then []
   else
     let serial := decimal (beAt p 8 4)
     let hw := [chr 'v'] ++ decimal (byteAt p 16) ++ [chr '.'] ++ decimal (byteAt p 17)
     let sw := [chr 'v'] ++ decimal (byteAt p 13) ++ [chr '.'] ++ decimal (byteAt p 14) ++ [chr '.'] ++ decimal (byteAt p 15)
     [tecmpPacket b (beAt b 12 4) ⟨tyCm, cmSetData cmDefault [] serial hw sw []⟩]
 
-/-- one interface status packet per complete 12-byte entry behind the 12 generic bytes -/
-def tecmpBusEntries (b p : Bytes) : Nat → Nat → List Packet
+/-- one interface status packet per COMPLETE entry behind the 12 generic bytes; an entry is 12 bytes (interface id, messages
+    total, errors total) followed by `v` bytes of vendor data, `v` = the vendor data length the generic part declares -/
+def tecmpBusEntries (b p : Bytes) (v : Nat) : Nat → Nat → List Packet
   | 0, _ => []
   | fuel+1, off =>
-    if off + 12 ≤ p.length then
+    if off + (12 + v) ≤ p.length then
       let ifId := beAt p off 4
       let o := writeAt ifDefault 0 (beEnc 4 ifId)
       let o := writeAt o 4 (beEnc 4 (beAt p (off + 4) 4))
       let o := writeAt o 20 (beEnc 4 (beAt p (off + 8) 4))
-      tecmpPacket b ifId ⟨tyIf, o⟩ :: tecmpBusEntries b p fuel (off + 12)
+      tecmpPacket b ifId ⟨tyIf, o⟩ :: tecmpBusEntries b p v fuel (off + (12 + v))
     else []
 
+/-- bus status: generic part (12 bytes; vendor data length u16 @4), then the entries -/
 def tecmpBus (b p : Bytes) : List Packet :=
-  if p.length < 12 then [] else tecmpBusEntries b p (p.length / 12 + 1) 12
+  if p.length < 12 then [] else tecmpBusEntries b p (beAt p 4 2) (p.length / 12 + 1) 12
 
 /-- `TECMP::Decoder::Decode` -/
 def tecmpDecode (b : Bytes) : List Packet :=
